@@ -18,9 +18,15 @@ import HickoryVerif.Spec.Denial3
 namespace HickoryVerif.C09
 open HickoryVerif HickoryVerif.Nsec3 HickoryVerif.Denial3 Std
 
-/-- the encoder is an order embedding of hashes into labels -/
+/-- the encoder is an order embedding of hashes (octet strings) into labels; proved for the concrete
+base32hex encoder in `Proofs/C09Base32.lean` (`base32hex_order`) -/
 def EncOrd (enc : Bytes → Bytes) : Prop :=
-  ∀ x y, Name.cmpLabel true (enc x) (enc y) = compare x y
+  ∀ x y, Bytes.WF x → Bytes.WF y → Name.cmpLabel true (enc x) (enc y) = compare x y
+
+/-- hashes and next-hash fields are octet strings (every element < 256) -/
+structure HashWF (H : Name → Bytes) (recs : List Rec) : Prop where
+  hash : ∀ n, Bytes.WF (H n)
+  next : ∀ r ∈ recs, Bytes.WF r.next
 
 /-! ### order facts -/
 
@@ -50,16 +56,21 @@ section
 variable {fx : Fixes} {H : Name → Bytes} {enc : Bytes → Bytes}
 
 /-- what the code's label comparisons say about hashes when the owner label encodes `ho` -/
-theorem label_vs_enc (hE : EncOrd enc) {l ho x : Bytes} (hl : labelEq l (enc ho) = true) :
+theorem label_vs_enc (hE : EncOrd enc) {l ho x : Bytes} (hl : labelEq l (enc ho) = true)
+    (hho : Bytes.WF ho) (hx : Bytes.WF x) :
     Name.cmpLabel true l (enc x) = compare ho x := by
-  rw [cmpLabel_congr hl, hE]
+  rw [cmpLabel_congr hl, hE _ _ hho hx]
 
 /-- `find_covering_record`'s closure, read on hashes.  With the repaired wrap-around arm, or for a
 record that is not a wrap-around record, "covers" means "strictly inside the link". -/
 theorem covers_inside (hE : EncOrd enc) {r : Pair} {ho th : Bytes}
     (hl : labelEq r.label (enc ho) = true)
+    (hho : Bytes.WF ho) (hth : Bytes.WF th) (hnx : Bytes.WF r.data.next)
     (hw : fx.wrap = true ∨ labelLt r.label (enc r.data.next) = true)
     (hc : covers fx enc r th (enc th) = true) : Inside ho r.data.next th := by
+  have e1 : Name.cmpLabel true r.label (enc th) = compare ho th := label_vs_enc hE hl hho hth
+  have e2 : Name.cmpLabel true r.label (enc r.data.next) = compare ho r.data.next :=
+    label_vs_enc hE hl hho hnx
   unfold covers at hc
   split at hc
   · simp at hc
@@ -70,7 +81,7 @@ theorem covers_inside (hE : EncOrd enc) {r : Pair} {ho th : Bytes}
       · simp at hnl
       · simpa using hnl.symm
     subst hnl'
-    simp only [labelEq, labelLt, labelGt, bytesLt, bytesGt, label_vs_enc hE hl,
+    simp only [labelEq, labelLt, labelGt, bytesLt, bytesGt, e1, e2,
       C04.cmpLabel_cs] at hc hw
     unfold Inside hlt
     by_cases h1 : compare ho r.data.next = .lt
@@ -97,6 +108,7 @@ def NoWrap (enc : Bytes → Bytes) (recs : List Rec) : Prop :=
 covered does not exist in any zone view the records are consistent with — unless the covering
 record is Opt-Out, in which case it can only be an insecure delegation. -/
 theorem findCovering_sound (hE : EncOrd enc) {soa : Option Name} {recs : List Rec}
+    (hwf : HashWF H recs)
     {pairs : List Pair} (hp : mkPairs soa recs = some pairs) {Z : ZoneView}
     (hc : ConsistentWith3 H enc recs Z) (hw : fx.wrap = true ∨ NoWrap enc recs)
     {t : List Bytes} {x : Pair}
@@ -112,7 +124,7 @@ theorem findCovering_sound (hE : EncOrd enc) {soa : Option Name} {recs : List Re
     simp at hlab
     exact hlab.1.symm
   subst hll
-  refine hins t ht (covers_inside (fx := fx) hE hl ?_ hcov)
+  refine hins t ht (covers_inside (fx := fx) hE hl (hwf.hash _) (hwf.hash _) (hwf.next _ hmem) ?_ hcov)
   rcases hw with h | h
   · exact .inl h
   · exact .inr (h _ hmem _ _ hown)
@@ -124,6 +136,7 @@ def NoCollisionAt (H : Name → Bytes) (Z : ZoneView) (t : List Bytes) : Prop :=
 /-- **Matching**: a record whose owner label is the encoded hash of `t` describes `t` (given no
 collision at `t`): `t` exists with exactly the record's types. -/
 theorem findMatching_sound (hE : EncOrd enc) {soa : Option Name} {recs : List Rec}
+    (hwf : HashWF H recs)
     {pairs : List Pair} (hp : mkPairs soa recs = some pairs) {Z : ZoneView}
     (hc : ConsistentWith3 H enc recs Z) {t : List Bytes} (hinj : NoCollisionAt H Z t) {x : Pair}
     (h : findMatching pairs (enc (H (mk t))) = some x) :
@@ -139,7 +152,7 @@ theorem findMatching_sound (hE : EncOrd enc) {soa : Option Name} {recs : List Re
     exact hlab.1.symm
   subst hll
   have : compare (H (mk n)) (H (mk t)) = .eq := by
-    rw [← label_vs_enc hE hl]
+    rw [← label_vs_enc hE hl (hwf.hash _) (hwf.hash _)]
     simpa [labelEq] using hm
   have hnt : n = t := hinj n (by simp [ZoneView.has, hts]) (cmp_eq_iff.mp this)
   subst hnt
@@ -220,14 +233,15 @@ def NoDelegNS (recs : List Rec) : Prop := ∀ r ∈ recs, isDelegNS r = false
 
 /-- **§8.5 / §8.6, matching record** (case 2).  Needs no collision at QNAME.  The RFC 6840 §4.1
 clause needs the `deleg` repair or an input without parent-side delegation records (finding). -/
-theorem nodata_match_sound (hE : EncOrd enc) (hp : mkPairs soa recs = some pairs)
+theorem nodata_match_sound (hE : EncOrd enc) (hwf : HashWF H recs)
+    (hp : mkPairs soa recs = some pairs)
     (hc : ConsistentWith3 H enc recs Z) {q : List Bytes} {qtype : Nat}
     (hinj : NoCollisionAt H Z q) {r : Pair}
     (hm : findMatching pairs (enc (H (mk q))) = some r)
     (hs : nodataMatch fx qtype r = .secure)
     (hd : fx.deleg = true ∨ NoDelegNS recs) :
     ClaimNoData Z q qtype := by
-  obtain ⟨ts, hts, htypes⟩ := findMatching_sound hE hp hc hinj hm
+  obtain ⟨ts, hts, htypes⟩ := findMatching_sound hE hwf hp hc hinj hm
   have hmem : r.data ∈ recs := (mkPairs_spec hp r (List.mem_of_find?_eq_some hm)).1
   unfold nodataMatch at hs
   split at hs
@@ -261,7 +275,8 @@ theorem nodata_match_sound (hE : EncOrd enc) (hp : mkPairs soa recs = some pairs
 
 /-- **§8.6, Opt-Out** (case 3): QNAME covered by an Opt-Out record ⇒ no DS RRset at QNAME.  No
 assumption on the hash.  (The wrap-around finding is the only side condition.) -/
-theorem ds_optout_sound (hE : EncOrd enc) (hp : mkPairs soa recs = some pairs)
+theorem ds_optout_sound (hE : EncOrd enc) (hwf : HashWF H recs)
+    (hp : mkPairs soa recs = some pairs)
     (hc : ConsistentWith3 H enc recs Z) (hw : fx.wrap = true ∨ NoWrap enc recs)
     {q : List Bytes} {qtype : Nat}
     (h : dsOptOut fx H enc (mk q) qtype pairs = true) : ClaimNoDS Z q := by
@@ -272,14 +287,15 @@ theorem ds_optout_sound (hE : EncOrd enc) (hp : mkPairs soa recs = some pairs)
   · rename_i x hx
     intro ⟨ts, hts, hds⟩
     have hhas : Z.has q := by simp [ZoneView.has, hts]
-    obtain ⟨_, ⟨_, hnods⟩⟩ := findCovering_sound hE hp hc hw hx hhas
+    obtain ⟨_, ⟨_, hnods⟩⟩ := findCovering_sound hE hwf hp hc hw hx hhas
     exact hnods ⟨ts, hts, hds⟩
   · simp at h
 
 /-- **§8.8, wildcard answer** (case 4): the record covering the next closer name proves that no
 ancestor-or-self of QNAME longer than the wildcard's parent exists.  No assumption on the hash.
 Side conditions for the code as it is: no wrap-around record, no Opt-Out record (findings). -/
-theorem wildcard_answer_sound (hE : EncOrd enc) (hp : mkPairs soa recs = some pairs)
+theorem wildcard_answer_sound (hE : EncOrd enc) (hwf : HashWF H recs)
+    (hp : mkPairs soa recs = some pairs)
     (hc : ConsistentWith3 H enc recs Z) (hZ : Z.WF)
     (hw : fx.wrap = true ∨ NoWrap enc recs) (ho : fx.optout = true ∨ NoOptOut recs)
     {q : Name} {k : Nat} (hk : Z.apex.length ≤ k)
@@ -312,7 +328,7 @@ theorem wildcard_answer_sound (hE : EncOrd enc) (hp : mkPairs soa recs = some pa
           obtain ⟨pre, rfl⟩ := hsa
           have hnc : Z.has (lastLabels q (k + 1)) :=
             has_of_has_append hZ pre _ (by omega) hhas
-          obtain ⟨hopt, _⟩ := findCovering_sound hE hp hc hw hcov hnc
+          obtain ⟨hopt, _⟩ := findCovering_sound hE hwf hp hc hw hcov hnc
           have hmem : ncr.data ∈ recs :=
             (mkPairs_spec hp ncr (List.mem_of_find?_eq_some hcov)).1
           rcases ho with ho | ho
@@ -532,7 +548,8 @@ def NoDelegRec (recs : List Rec) : Prop := ∀ r ∈ recs, isDelegationRec r = f
 /-- The closest encloser proof, read semantically: given the matching record for `ls` and the
 covering record for `l :: ls` (both suffixes of the query name), `ls` is THE closest encloser of the
 query name in every consistent zone view, the query name does not exist, and `ls` is not a cut. -/
-theorem closest_encloser_sound (hE : EncOrd enc) (hp : mkPairs soa recs = some pairs)
+theorem closest_encloser_sound (hE : EncOrd enc) (hwf : HashWF H recs)
+    (hp : mkPairs soa recs = some pairs)
     (hc : ConsistentWith3 H enc recs Z) (hZ : Z.WF)
     (hw : fx.wrap = true ∨ NoWrap enc recs)
     {ql : List Bytes} {l : Bytes} {ls : List Bytes} (hsuf : (l :: ls) <:+ ql)
@@ -550,7 +567,7 @@ theorem closest_encloser_sound (hE : EncOrd enc) (hp : mkPairs soa recs = some p
       rw [hown] at hlab; simp at hlab; exact hlab.1.symm
     subst hll
     have : compare (H (mk n)) (H (mk ls)) = .eq := by
-      rw [← label_vs_enc hE hl]
+      rw [← label_vs_enc hE hl (hwf.hash _) (hwf.hash _)]
       simpa [labelEq] using labelEq_symm hml
     have hnt : n = ls := hinj n (by simp [ZoneView.has, hts]) (cmp_eq_iff.mp this)
     subst hnt
@@ -561,7 +578,7 @@ theorem closest_encloser_sound (hE : EncOrd enc) (hp : mkPairs soa recs = some p
   -- the next closer name does not exist
   have hnc : ¬ Z.has (l :: ls) := by
     intro hh
-    have := (findCovering_sound hE hp hc hw hcov hh).1
+    have := (findCovering_sound hE hwf hp hc hw hcov hh).1
     simp [hno] at this
   -- hence nothing at or below it
   have hbelow : ∀ a, a <:+ ql → ls.length < a.length → ¬ Z.has a := by
@@ -617,7 +634,8 @@ theorem side_conditions (hp : mkPairs soa recs = some pairs)
 consistent with the records: QNAME does not exist, and its closest encloser has no wildcard child and
 is not a zone cut / DNAME owner.  Collision-freeness is used only for the *matching* record of the
 closest encloser.  Side conditions for the code as it is = findings (wrap-around, opt-out, §8.3). -/
-theorem nxdomain_sound (hE : EncOrd enc) (hp : mkPairs soa recs = some pairs)
+theorem nxdomain_sound (hE : EncOrd enc) (hwf : HashWF H recs)
+    (hp : mkPairs soa recs = some pairs)
     (hc : ConsistentWith3 H enc recs Z) (hZ : Z.WF)
     (hw : fx.wrap = true ∨ NoWrap enc recs) (ho : fx.optout = true ∨ NoOptOut recs)
     (hd : fx.deleg = true ∨ NoDelegRec recs)
@@ -652,7 +670,7 @@ theorem nxdomain_sound (hE : EncOrd enc) (hp : mkPairs soa recs = some pairs)
               exact List.mem_of_find?_eq_some hcov
             obtain ⟨hdel, hno⟩ := side_conditions hp ho hd hm hncr h1 h2
             have hlsq : ls <:+ ql := (List.suffix_cons l ls).trans hsuf
-            obtain ⟨hq, hce'⟩ := closest_encloser_sound hE hp hc hZ hw hsuf (hinj ls hlsq)
+            obtain ⟨hq, hce'⟩ := closest_encloser_sound hE hwf hp hc hZ hw hsuf (hinj ls hlsq)
               hm hml hcov hno hdel
             obtain ⟨ls', hls', _, hwcov⟩ := cepw_inv hce ⟨ls, rfl⟩ hwx
             have : ls' = ls := by
@@ -666,7 +684,7 @@ theorem nxdomain_sound (hE : EncOrd enc) (hp : mkPairs soa recs = some pairs)
             obtain ⟨rfl, hcut⟩ := hce' ce hce''
             refine ⟨?_, hcut⟩
             intro hwhas
-            obtain ⟨_, ⟨⟨hns, _⟩, _⟩⟩ := findCovering_sound hE hp hc hw hwcov hwhas
+            obtain ⟨_, ⟨⟨hns, _⟩, _⟩⟩ := findCovering_sound hE hwf hp hc hw hwcov hwhas
             exact hZ.wild_no_ns _ hns
       · rename_i _ _ _ v1 v2 hce hnc
         rw [hcep] at hce hnc
@@ -675,7 +693,8 @@ theorem nxdomain_sound (hE : EncOrd enc) (hp : mkPairs soa recs = some pairs)
       · cases h
 
 /-- **§8.7 wildcard no data** (case 5, first arm; the apex arm is excluded by `hapex`). -/
-theorem wildcard_nodata_sound (hE : EncOrd enc) (hp : mkPairs soa recs = some pairs)
+theorem wildcard_nodata_sound (hE : EncOrd enc) (hwf : HashWF H recs)
+    (hp : mkPairs soa recs = some pairs)
     (hc : ConsistentWith3 H enc recs Z) (hZ : Z.WF)
     (hw : fx.wrap = true ∨ NoWrap enc recs) (ho : fx.optout = true ∨ NoOptOut recs)
     (hd : fx.deleg = true ∨ NoDelegRec recs)
@@ -709,7 +728,7 @@ theorem wildcard_nodata_sound (hE : EncOrd enc) (hp : mkPairs soa recs = some pa
             exact List.mem_of_find?_eq_some hcov
           obtain ⟨hdel, hno⟩ := side_conditions hp ho hd hm hncr h1 h2
           have hlsq : ls <:+ ql := (List.suffix_cons l ls).trans hsuf
-          obtain ⟨hq, hce'⟩ := closest_encloser_sound hE hp hc hZ hw hsuf (hinj ls hlsq).1
+          obtain ⟨hq, hce'⟩ := closest_encloser_sound hE hwf hp hc hZ hw hsuf (hinj ls hlsq).1
             hm hml hcov hno hdel
           obtain ⟨ls', hls', _, hwm⟩ := cepw_inv hce ⟨ls, rfl⟩ hwx
           have : ls' = ls := by
@@ -718,7 +737,7 @@ theorem wildcard_nodata_sound (hE : EncOrd enc) (hp : mkPairs soa recs = some pa
             exact this.symm
           subst this
           simp only [if_true] at hwm
-          obtain ⟨ts, hts, htypes⟩ := findMatching_sound hE hp hc (hinj ls' hlsq).2 hwm
+          obtain ⟨ts, hts, htypes⟩ := findMatching_sound hE hwf hp hc (hinj ls' hlsq).2 hwm
           simp only [Bool.and_eq_true, Bool.not_eq_true'] at hty
           refine ⟨hq, ?_⟩
           intro ce hce''
@@ -762,7 +781,7 @@ theorem noDelegNS_of_noDelegRec (h : NoDelegRec recs) : NoDelegNS recs := by
   exact this.1
 
 /-- **RFC 5155 §8.4.**  An NXDOMAIN response accepted as `Secure` really is a name error. -/
-theorem verify_name_error_sound (hE : EncOrd enc) {ql : List Bytes} {qtype : Nat}
+theorem verify_name_error_sound (hE : EncOrd enc) (hwf : HashWF H recs) {ql : List Bytes} {qtype : Nat}
     {wl : Option Nat} {soft hard : Nat}
     (h : verifyNsec3 fx H enc (mk ql) qtype soa rcNXDomain wl recs soft hard = .secure)
     (hZ : Z.WF) (hc : ConsistentWith3 H enc recs Z) (hinj : NoCollisions H Z ql)
@@ -772,13 +791,13 @@ theorem verify_name_error_sound (hE : EncOrd enc) {ql : List Bytes} {qtype : Nat
   obtain ⟨f, ps, hp, _, _, hs⟩ :=
     gate_passed fx H enc (mk ql) qtype soa rcNXDomain wl recs soft hard h (by simp)
   rcases (hs rfl).2 with ⟨_, hv⟩ | ⟨hrc, _⟩
-  · exact nxdomain_sound hE hp hc hZ hw ho hd (fun a ha => (hinj a ha).1) hv
+  · exact nxdomain_sound hE hwf hp hc hZ hw ho hd (fun a ha => (hinj a ha).1) hv
   · cases hrc
 
 /-- **RFC 5155 §8.5, §8.6, §8.7.**  A NOERROR response without answer RRSIG accepted as `Secure`:
 for QTYPE = DS there is no DS RRset at QNAME; otherwise it is a NODATA (type and CNAME absent, not a
 delegation point) or a wildcard NODATA.  `ha` excludes the apex arm (finding 1). -/
-theorem verify_nodata_sound (hE : EncOrd enc) {ql : List Bytes} {qtype : Nat} {soft hard : Nat}
+theorem verify_nodata_sound (hE : EncOrd enc) (hwf : HashWF H recs) {ql : List Bytes} {qtype : Nat} {soft hard : Nat}
     (h : verifyNsec3 fx H enc (mk ql) qtype soa rcNoError none recs soft hard = .secure)
     (hZ : Z.WF) (hc : ConsistentWith3 H enc recs Z) (hinj : NoCollisions H Z ql)
     (hw : fx.wrap = true ∨ NoWrap enc recs) (ho : fx.optout = true ∨ NoOptOut recs)
@@ -796,15 +815,15 @@ theorem verify_nodata_sound (hE : EncOrd enc) {ql : List Bytes} {qtype : Nat} {s
     simp only [hwe, Bool.false_eq_true, if_false, Bool.not_false, Bool.true_and] at hv
     split at hv
     · rename_i r hm
-      have hcl := nodata_match_sound hE hp hc (hinj ql (List.suffix_refl _)).1 hm hv hd'
+      have hcl := nodata_match_sound hE hwf hp hc (hinj ql (List.suffix_refl _)).1 hm hv hd'
       exact ⟨fun hds => by subst hds; exact hcl.1, fun _ => .inl hcl⟩
     · split at hv
       · rename_i hds
         have hq : qtype = tDS := by
           simp only [dsOptOut, Bool.and_eq_true, beq_iff_eq] at hds
           exact hds.1
-        exact ⟨fun _ => ds_optout_sound hE hp hc hw hds, fun hne => absurd hq hne⟩
-      · have hcl := wildcard_nodata_sound hE hp hc hZ hw ho hd ha hinj hv
+        exact ⟨fun _ => ds_optout_sound hE hwf hp hc hw hds, fun hne => absurd hq hne⟩
+      · have hcl := wildcard_nodata_sound hE hwf hp hc hZ hw ho hd ha hinj hv
         refine ⟨fun _ => ?_, fun _ => .inr hcl⟩
         intro ⟨ts, hts, _⟩
         exact hcl.1 (by simp [ZoneView.has, hts])
@@ -817,7 +836,7 @@ def NoQnameShortcut (fx : Fixes) (H : Name → Bytes) (enc : Bytes → Bytes) (q
 
 /-- **RFC 5155 §8.8.**  A wildcard expansion (answer RRSIG with `k` labels, fewer than QNAME has)
 accepted as `Secure`: no ancestor-or-self of QNAME with more than `k` labels exists. -/
-theorem verify_wildcard_answer_sound (hE : EncOrd enc) {ql : List Bytes} {qtype k : Nat}
+theorem verify_wildcard_answer_sound (hE : EncOrd enc) (hwf : HashWF H recs) {ql : List Bytes} {qtype k : Nat}
     {soft hard : Nat}
     (h : verifyNsec3 fx H enc (mk ql) qtype soa rcNoError (some k) recs soft hard = .secure)
     (hk : k < (mk ql).numLabels) (hZ : Z.WF) (hak : Z.apex.length ≤ k)
@@ -839,10 +858,10 @@ theorem verify_wildcard_answer_sound (hE : EncOrd enc) {ql : List Bytes} {qtype 
         by_cases hwe : wildExp fx (mk ql) (some k) = true
         · simpa [hwe] using hv
         · simpa [hwe, h1, h2] using hv
-    exact wildcard_answer_sound hE hp hc hZ hw ho hak key
+    exact wildcard_answer_sound hE hwf hp hc hZ hw ho hak key
 
 /-- the full-strength instance: for the code with all five repairs no side condition is left -/
-theorem allFixed_sound (hE : EncOrd enc) {ql : List Bytes} {qtype : Nat} {wl : Option Nat}
+theorem allFixed_sound (hE : EncOrd enc) (hwf : HashWF H recs) {ql : List Bytes} {qtype : Nat} {wl : Option Nat}
     {soft hard : Nat} (hZ : Z.WF) (hc : ConsistentWith3 H enc recs Z)
     (hinj : NoCollisions H Z ql) :
     (verifyNsec3 allFixed H enc (mk ql) qtype soa rcNXDomain wl recs soft hard = .secure →
@@ -853,9 +872,9 @@ theorem allFixed_sound (hE : EncOrd enc) {ql : List Bytes} {qtype : Nat} {wl : O
     (∀ k, k < (mk ql).numLabels → Z.apex.length ≤ k →
       verifyNsec3 allFixed H enc (mk ql) qtype soa rcNoError (some k) recs soft hard = .secure →
       ClaimWildcardAnswer Z ql k) :=
-  ⟨fun h => verify_name_error_sound hE h hZ hc hinj (.inl rfl) (.inl rfl) (.inl rfl),
-   fun h => verify_nodata_sound hE h hZ hc hinj (.inl rfl) (.inl rfl) (.inl rfl) (.inl rfl),
-   fun _ hk hak h => verify_wildcard_answer_sound hE h hk hZ hak hc (.inl rfl) (.inl rfl) (.inl rfl)⟩
+  ⟨fun h => verify_name_error_sound hE hwf h hZ hc hinj (.inl rfl) (.inl rfl) (.inl rfl),
+   fun h => verify_nodata_sound hE hwf h hZ hc hinj (.inl rfl) (.inl rfl) (.inl rfl) (.inl rfl),
+   fun _ hk hak h => verify_wildcard_answer_sound hE hwf h hk hZ hak hc (.inl rfl) (.inl rfl) (.inl rfl)⟩
 
 end
 
